@@ -263,6 +263,12 @@ class Runner:
                 v = ref_value(wb, ast)
             if v[0] == 'value' and values_equal(v[1], got[1]):
                 return kf
+            if v[0] == 'undecided':
+                # with that mechanism switched on the evaluation runs into a
+                # case the statements do not decide (e.g. FALSE^-3 instead of
+                # TRUE^-3): the deviation starts at the listed mechanism
+                self.ctx.event('attributed_via_undecided')
+                return kf
         # both together
         feats = ref_features(wb, ast)
         if {'bool_text_title', 'text_left_str_compare'} <= feats:
